@@ -23,9 +23,7 @@ theorem pall (S : Schema) (hU : S.unambiguous = true) (n : Nat) : PAll S n := by
 theorem unmarshal_eq (S : Schema) (d tag : Nat) (bs : Bytes) :
     unmarshal S d tag bs =
       if S.dyns.length ≤ d then .err .other else unmarshalFuel S (decFuel bs.length) d tag bs := by
-  unfold unmarshal unmarshalFuel
-  generalize decFuel bs.length = F
-  rfl
+  unfold unmarshal; rfl
 
 /-- the round trip at the level of `marshal` / `unmarshal`, for any sufficient decoder fuel. -/
 theorem roundtrip_core (S : Schema) (hU : S.unambiguous = true) (d tag : Nat) (v v' : Val) (w : Option Ver)
@@ -55,7 +53,7 @@ theorem roundtrip_core (S : Schema) (hU : S.unambiguous = true) (d tag : Nat) (v
   · unfold normTop
     simp only [dynValOk_norm hok hn, hdyn, Bool.and_self, if_true, hn']
   · intro fuel hf
-    unfold unmarshalFuel
+    unfold unmarshalFuel unmarshalWith
     rw [Cur.start_encList items hr]
     simp only [Res.ok_bind]
     have htt : (if tag = 0 then (S.dyn d).defTag else tag) = topTag S d tag := rfl
